@@ -23,7 +23,7 @@ def _targets():
     import gen_repetitions
 
     t = [("GenRepetitions.v", ["src/bartiq/repetitions.py"], lambda: gen_repetitions.generate(os.path.join(REPO, "src/bartiq/repetitions.py")))]
-    for modname in ("gen_tables", "gen_bigo", "gen_verification", "gen_latex", "gen_parser", "gen_highwater"):
+    for modname in ("gen_tables", "gen_bigo", "gen_verification", "gen_latex", "gen_parser", "gen_highwater", "gen_graddesc"):
         try:
             mod = __import__(modname)
         except ModuleNotFoundError:
